@@ -785,11 +785,27 @@ func execRefresh(c Case) (res core.Result) {
 			fileLen = len(b)
 		} else {
 			ntext = Render(rw.Lines, false)
-			data := padded(ntext)
-			if rw.Filler > 0 {
-				bigText := Render(rw.BigLines, false) + fillerText(rw.Filler, c.V6)
+			var bigProbe map[string]net.IP
+			_, finalErr := ParseModel(ntext, c.V6)
+			if rw.Filler > 0 && finalErr == nil {
 				// only the first few generated entries are probed
 				if m, err := ParseModel(Render(rw.BigLines, false)+fillerText(3, c.V6), c.V6); err == nil {
+					bigProbe = m
+					// the last content lists one client no other content of this case lists, so that
+					// "the last content is in force" can be told from an earlier content that
+					// happens to say the same about every other client
+					if c.V6 {
+						ntext = fmt.Sprintf("02:fe:fe:fe:00:%02x 2001:db8:fe::%x\n", byte(i), i+1) + ntext
+					} else {
+						ntext = fmt.Sprintf("02:fe:fe:fe:00:%02x 10.254.%d.1\n", byte(i), byte(i)) + ntext
+					}
+				}
+			}
+			data := padded(ntext)
+			if bigProbe != nil {
+				bigText := Render(rw.BigLines, false) + fillerText(rw.Filler, c.V6)
+				{
+					m := bigProbe
 					big := []byte(bigText)
 					if len(big) < fileLen {
 						big = append(big, []byte("#"+strings.Repeat("b", fileLen-len(big)-2)+"\n")...)
@@ -850,7 +866,7 @@ func execRefresh(c Case) (res core.Result) {
 			sawBurst = true
 			if hv := ri.holdSteady(next, bigModel, 150*time.Millisecond); hv != nil {
 				hv.Signature = "C10/refresh/older-content-comes-back"
-				hv.Message = "two rewrites in a row (a large file, then this one); after this one's mapping was in force: " + hv.Message
+				hv.Message = "two rewrites in a row (a large file, then this one); after this one's mapping was in force: " + strings.Replace(hv.Message, "after a malformed update ", "", 1)
 				v = hv
 			}
 		}
